@@ -682,6 +682,14 @@ def c15_templates(tier):
                 cycles["reuse_reversed_resize"] = cycles["reuse_reversed"][:-1] + [
                     {"op": "set_len", "p": sp(["k1"]), "n": r // 2}, {"op": "set_len", "p": sp(["k1"]), "n": r},
                     {"op": "remove_stream", "p": sp(["k1"])}]
+                if s == 10 and ver == 3:
+                    # growth by more than a whole FAT sector's worth of sectors (128 in version 3) in ONE set_len call, while
+                    # free sectors exist: the long extension must come out of the free list like any other
+                    cycles["setlen_long"] = [{"op": "create_stream", "p": sp(["zz"])},
+                                             {"op": "set_len", "p": sp(["zz"]), "n": 100000},
+                                             {"op": "remove_stream", "p": sp(["zz"])}]
+                    cycles["grow_long_shrink"] = [{"op": "set_len", "p": sp(["AB"]), "n": 5000 + 140000},
+                                                  {"op": "set_len", "p": sp(["AB"]), "n": 5000}]
                 if s in (10, 4096, 10000):
                     cycles["create_setlen_remove"] = [{"op": "create_stream", "p": sp(["zz"])},
                                                      {"op": "write", "p": sp(["zz"]), "off": 0, "runs": [[7, s]]},
